@@ -44,7 +44,9 @@ REQUIRED_CLASSES = ['network:random', 'network:pinned', 'rank:full', 'rank:defic
                     'span:<5', 'span:5-30', 'span:30-60',
                     'T:300', 'T:2500', 'T:<T_mid', 'T:>=T_mid', 'P:0.01', 'P:100', 'P:interior',
                     'perm:nontrivial', 'solver:ok', 'reactions:0', 'reactions:>=3',
+                    'regime:regular', 'regime:deep_trace', 'regime:forced_zero', 'asserted:regular',
                     'trace_species_present', 'thermdat:zero_count_slots', 'thermdat:superset']
+REQUIRED_BRANCHES = ['Q4:minor_species', 'Q4:major_species_only']
 REQUIRED_PROBES = ['scipy.optimize.minimize', 'Equilibrium.get_net_comp', 'Equilibrium._objective',
                    'Equilibrium._constraints1_eq', 'Equilibrium.__init__', 'read_thermdat']
 ASSUMPTIONS = [
@@ -70,9 +72,10 @@ TRACE = 1e-6
 # tolerances (calibrated on the unchanged tree, seeds 0-5, see report)
 TOL_Q1 = 1e-8          # * sum(b)
 TOL_Q2 = 1e-12
-TOL_Q3 = 1e-7          # * (1 + |G|)
-TOL_Q4 = 1e-4          # per unit of sum|nu|
-TOL_Q5 = 1e-6          # * sum(b)
+TOL_Q3 = 1e-9          # * (1 + |G|)
+TOL_Q4 = 1e-4          # * sqrt(sum nu_i^2 / x_i)
+TOL_Q5 = 2e-6          # * sum(b)
+DEEP = 1e-8            # regime boundary: smallest equilibrium mole fraction (reference solution)
 
 PINNED_REL = os.path.join('pmutt', 'tests', 'equilibrium', 'thermdat_equilibrium_unittest.txt')
 PINNED_ORDER = ['CH3CH2CH3', 'H2O', 'H2', 'CH2CHCH3', 'CH4', 'CHCH', 'CH2CH2', 'CH3CH3', 'CO2', 'CO']
@@ -310,7 +313,7 @@ def _generate_random(rng):
     npts = rng.choice([1, 1, 2, 3])
     pts = sorted(((_gen_T(rng), _gen_P(rng)) for _ in range(npts)), key=lambda tp: tp[0])
     T1 = pts[0][0]
-    span = rng.choice([rng.uniform(0.0, 5.0), rng.uniform(5.0, 30.0), rng.uniform(30.0, 59.0)])
+    span = rng.choice([rng.uniform(0.0, 2.0), rng.uniform(0.0, 5.0), rng.uniform(5.0, 30.0), rng.uniform(30.0, 59.0)])
     g0 = rng.uniform(-100.0, 40.0)
     u = [rng.random() for _ in range(ns)]
     lo, hi = rng.sample(range(ns), 2)
@@ -576,9 +579,10 @@ def _solve(eq, T, P):
 
 
 def _bump(ctx, key, val):
-    d = ctx.extra.setdefault('max_' + key, 0.0)
-    if val > d:
-        ctx.extra['max_' + key] = float(val)
+    """telemetry maximum (merged across shards by max, printed with the oracle maxima)"""
+    val = float(val)
+    if val == val and val > ctx.max_err.get(key, 0.0):
+        ctx.max_err[key] = val
 
 
 def run_case(spec, ctx):
@@ -639,20 +643,35 @@ def run_case(spec, ctx):
             ctx.cls('T:<T_mid' if T < sp['T_mid'] else 'T:>=T_mid')
         pbase = dict(base, span='<=60' if span <= 60 else '>60')
         ref = gibbs.solve(A, b, mu0)
-        if ref.forced_zero:
-            ctx.cls('feed:forces_a_species_to_zero')
+        # regime = feature of the *input* (network, feed, T, P), taken from the certified reference
+        if not ref.converged:
+            regime = 'unknown'
+        elif ref.forced_zero:
+            regime = 'forced_zero'
+        elif float(np.min(ref.n / ref.N)) < DEEP:
+            regime = 'deep_trace'
+        else:
+            regime = 'regular'
+        ctx.cls('regime:' + regime)
+        pbase['regime'] = regime
         runs = []
         for tag, eq, order in (('listed', eq1, ident), ('permuted', eq2, spec['perm'])):
             r = _run_one(ctx, spec, eq, order, species, T, P, A, b, bsum, g, mu0, ref, pbase, tag, nreact)
             runs.append(r)
         # ---- Q5 order independence
-        if runs[0] is not None and runs[1] is not None:
+        if runs[0] is not None and runs[1] is not None and regime == 'unknown':
+            ctx.inconc('Q5', 'regime_unknown(reference_not_converged)', T=T, P=P)
+        elif runs[0] is not None and runs[1] is not None:
             (n1, s1), (n2, s2) = runs
             mech = dict(pbase, what='moles', solver_status=s1 if s1 != 'ok' else s2, signalled=False)
+            if s1 == 'ok' and s2 == 'ok':
+                _bump(ctx, 'Q5[%s,%s]' % (rank_cls, regime), ctx.err(n2, n1, bsum))
             ctx.close('Q5', n2, n1, TOL_Q5, mech, scale=bsum, T=T, P=P, perm=spec['perm'],
                       ref=ref.n if ref.converged else None)
-            if len(elems) >= 2 and ns >= 4 and nreact >= 1 and ref.converged:
-                ctx.nontrivial()
+            if s1 == 'ok' and s2 == 'ok':
+                ctx.cls('asserted:' + regime)
+                if len(elems) >= 2 and ns >= 4 and nreact >= 1 and ref.converged:
+                    ctx.nontrivial()
 
 
 def _run_one(ctx, spec, eq, order, species, T, P, A, b, bsum, g, mu0, ref, pbase, tag, nreact):
@@ -715,7 +734,7 @@ def _run_one(ctx, spec, eq, order, species, T, P, A, b, bsum, g, mu0, ref, pbase
         gp = np.empty(ns)
         try:
             gp[order] = args[0]
-            _bump(ctx, 'abs_dg_pmutt_vs_ref', float(np.max(np.abs(gp - g))))
+            _bump(ctx, 'telemetry:|g_pmutt-g_ref|', float(np.max(np.abs(gp - g))))
             detail['max_dg_input'] = float(np.max(np.abs(gp - g)))
             detail['p_factor'] = args[1]
         except Exception:
@@ -731,6 +750,8 @@ def _run_one(ctx, spec, eq, order, species, T, P, A, b, bsum, g, mu0, ref, pbase
     if ntot > 0:
         ctx.close('Q2', x, n / ntot, TOL_Q2, dict(mech, what='x_vs_n'), **detail)
     # ---- Q1 atoms
+    if status == 'ok':
+        _bump(ctx, 'Q1[%s]' % pbase['rank'], ctx.err(n @ A, b, bsum))
     ctx.close('Q1', n @ A, b, TOL_Q1, dict(mech, what='atoms'), scale=bsum, **detail)
     if not (ntot > 0 and np.all(n >= 0.0)):
         return None
@@ -745,27 +766,36 @@ def _run_one(ctx, spec, eq, order, species, T, P, A, b, bsum, g, mu0, ref, pbase
             ctx.close('Q3', max(d, 0.0) / scale, 0.0, TOL_Q3, dict(mech, what='gibbs_excess'),
                       scale=1.0, G_excess=d, G_plain_difference=d_plain, G_ref=ref.G, n_ref=ref.n,
                       ref_gap=ref.gap, **detail)
-            _bump(ctx, 'rel_dn_vs_ref', float(np.max(np.abs(n - ref.n))) / bsum)
+            if status == 'ok':
+                _bump(ctx, 'Q3[%s,%s]' % (pbase['rank'], pbase['regime']), max(d, 0.0) / scale)
+                _bump(ctx, 'telemetry:|n-n_ref|/sum(b)[%s,%s]' % (pbase['rank'], pbase['regime']), float(np.max(np.abs(n - ref.n))) / bsum)
     else:
         ctx.inconc('Q3', 'reference_not_converged:' + ref.reason, T=T, P=P, gap=ref.gap,
                    balance=ref.balance, iterations=ref.iterations)
     # ---- Q4 reaction equilibrium among non-trace species
+    if pbase['regime'] == 'unknown':
+        ctx.inconc('Q4', 'regime_unknown(reference_not_converged)', T=T, P=P)
+        return n, status
     big = [i for i in range(ns) if x[i] > TRACE]
     if len(big) < ns:
         ctx.cls('trace_species_present')
     big.sort(key=lambda i: -x[i])
     sub = A[big].astype(int)
     reactions = gibbs.nullspace_reactions(sub)
-    mu = g[big] + np.log(x[big] * P * ATM_IN_BAR)
+    xb = x[big]
+    mu = g[big] + np.log(xb * P * ATM_IN_BAR)
     if not reactions:
         ctx.held('Q4')                           # no reaction among the species present: vacuous
         ctx.branch('Q4:no_reaction_among_present')
-    worst = 0.0
     for nu in reactions:
         aff = float(nu @ mu)
-        w = float(np.abs(nu).sum())
-        worst = max(worst, abs(aff) / w)
+        # an error d_i in ln x_i costs ~ n_i d_i^2 / 2 of Gibbs energy, so a solver that stops on the
+        # objective leaves d_i ~ 1/sqrt(x_i): the affinity is measured in that metric
+        w = math.sqrt(float(np.sum(nu * nu / xb)))
+        if status == 'ok':
+            _bump(ctx, 'Q4[%s,%s]' % (pbase['rank'], pbase['regime']), abs(aff) / w)
+        ctx.branch('Q4:minor_species' if float(np.min(xb[nu != 0])) < 1e-3 else 'Q4:major_species_only')
         ctx.close('Q4', aff / w, 0.0, TOL_Q4, dict(mech, what='affinity'), scale=1.0,
-                  affinity=aff, nu=nu, species=[species[i]['name'] for i in big],
-                  x=x[big], x_ref=(ref.n[big] / ref.N) if ref.converged else None, **detail)
+                  affinity=aff, weight=w, nu=nu, species=[species[i]['name'] for i in big],
+                  x=xb, x_ref=(ref.n[big] / ref.N) if ref.converged else None, **detail)
     return n, status
